@@ -100,12 +100,10 @@ func kfSubstr(args []KeyBuilderStage) (KeyBuilderStage, error) {
 			left = lenS
 		}
 
-		right := left + length
-
-		if right > lenS {
-			right = lenS
+		if length > lenS-left { // also when left + length overflows
+			length = lenS - left
 		}
-		return s[left:right]
+		return s[left : left+length]
 	}), nil
 }
 
